@@ -5,25 +5,24 @@
     total positive variation of the energy f along the path on [0, d], defined from explicit break points between
     which f is monotone ([breaks_monotone x] = closest approach only).  [None] models float('inf').
 
-    PARTIAL.  Proved over the reals: inverse power potential (repulsive and attractive, general real power, with
-    the division by the speed), hard sphere (first contact, infinite iff no contact), cell bounding (constant rate),
-    totality and sign in exact arithmetic for the inverse power branches, sign of dU/ds on each piece.
-    NOT proved (tied to the code only by the kernel-checked numerical correspondence and by the positive-variation
-    oracle of harness/c02.py on every run):
-      displacement_inverts_mexhat_partial :
-        forall m in {lj_mexhat k sigma, dep_mexhat k r0 p}, 0 < q -> 0 < dE ->
-        mh_displacement m dE x q = Some d ->
-          Eplus (fun s => mh_pot m (q + (x - s)^2)) (breaks_mexhat x q (mh_r0 m)) d = dE
-        and  mh_displacement m dE x q = None -> forall d >= 0, Eplus ... d <= dE      (7 paths through the 4 cases);
-      laps_correct_partial (CoulombBoundR.ipc_displacement): Eplus of the nearest-image 1/r potential gains
-        |U(0) - U(L/2)| per box length and ipc_displacement inverts it;
-      hard dipole: first time of reaching the minimal or the maximal separation (harness oracle: exact rationals);
-      float-level totality ("returns a value for every positive budget down to denormals"): cannot be carried by a
-      real model; it is searched on every run and fails in the classes F3a-F3d (known findings). *)
+    Proved over the reals (full theorems): inverse power potential (repulsive and attractive, general real power,
+    with the division by the speed), Lennard-Jones and displaced even power through all cases of the code's case
+    tree (via a generic theorem for any well-formed Mexican hat), the C 1/r bounding potential with periodic images
+    ([laps_correct]), hard sphere (first contact, infinite iff no contact), hard dipole (first contact with the inner sphere, else
+    the time of reaching the maximal separation), cell bounding (constant rate), "infinite
+    exactly when never reached" for all of them, totality and sign in exact arithmetic for the inverse power
+    branches, sign of dU/ds on each piece.
+    PARTIAL (tied to the code only by the kernel-checked numerical correspondence and by the oracles of
+    harness/c02.py on every run):
+      float_totality_partial : "returns a value for every admissible separation and every positive budget down to
+        denormals, not negative beyond rounding" is a statement about libm pow/sqrt and float cancellation; a real
+        model cannot carry it; it is searched on every run and fails in the classes F3a-F3e (known findings);
+      the single budget value "dE = inner barrier" of the Mexican hats and the start exactly on the minimum sphere
+        of the hard sphere (measure zero) are excluded by hypotheses (see the statements). *)
 From Coq Require Import Reals Lra.
 From Coquelicot Require Import Coquelicot.
 From Interval Require Import Tactic.
-Require Import JF.Model.PotentialsR JF.Model.PotentialsRCases JF.Proofs.PotentialsRProofs.
+Require Import JF.Model.PotentialsR JF.Model.CoulombBoundR JF.Model.PotentialsRCases JF.Proofs.PotentialsRProofs.
 Open Scope R_scope.
 
 (** InversePowerPotential.displacement(velocity, separation, c1, c2, potential_change) *)
@@ -171,80 +170,190 @@ Print Assumptions infinite_iff_cell_bounding.
 Example infinite_iff_cell_bounding_nonvacuous : sv_displacement (cb_displacement (-1) 3) 1 = None.
 Proof. resolve. reflexivity. Qed.
 
-(** Mexican-hat potentials (Lennard-Jones, displaced even power): building blocks of the partial theorem
-    displacement_inverts_mexhat_partial (see the header): the code's _potential is the energy, and the two inverse
-    functions used by the four geometric cases are correct on their side of the minimum. *)
+(** ** Mexican-hat potentials (Lennard-Jones, displaced even power): all cases of the code's case tree
+    (in front of / behind the closest approach  x  inside / outside the minimum sphere  x  can / cannot climb the inner
+    barrier  x  enters / passes by the sphere).  Specification side: [Eplus] over the break points
+    [breaks_mexhat x q r0] = closest approach and the two crossings of the minimum sphere (independent of the code).
+    Hypothesis "dE <> inner barrier": the budget is not exactly the energy needed to reach the closest approach from
+    the start (inside) or from the minimum sphere (entering from outside) -- one single value, the branch boundary
+    "can / cannot climb"; exactly there the real model of Python's [**] ([Rpower 0 _ = 1] in Coq) differs from Python
+    and the float code itself fails (known finding F3e). *)
 Theorem potential_is_energy_lennard_jones : forall k sigma r2 : R,
   0 < r2 -> lj_pot k sigma r2 = lj_U k sigma (sqrt r2).
 Proof. exact lj_pot_U. Qed.
 Print Assumptions potential_is_energy_lennard_jones.
 Example potential_is_energy_lennard_jones_nonvacuous : (0 : R) < 3 / 2. Proof. lra. Qed.
 
-Theorem invert_outside_minimum_lennard_jones_partial : forall k sigma U rn : R,
+Theorem displacement_inverts_lennard_jones : forall k sigma dE x q speed t : R,
+  0 < k -> 0 < sigma -> 0 < q -> 0 < dE -> 0 < speed ->
+  (0 < x -> q <= lj_r0 sigma * lj_r0 sigma ->
+   dE <> lj_pot k sigma q - lj_pot k sigma (Rmin (q + x * x) (lj_r0 sigma * lj_r0 sigma))) ->
+  sv_displacement (lj_displacement k sigma dE x q) speed = Some t ->
+  0 < t /\
+  Eplus (fun s => lj_pot k sigma (q + (x - s) * (x - s))) (breaks_mexhat x q (lj_r0 sigma)) (t * speed) = dE.
+Proof. exact lj_displacement_inverts. Qed.
+Print Assumptions displacement_inverts_lennard_jones.
+(** behind the closest approach, outside, entering the sphere, budget above the inner barrier: the longest path *)
+Example displacement_inverts_lennard_jones_nonvacuous :
+  sv_displacement (lj_displacement 1 1 (2 / 5) (3 / 2) 1) 2 <> None /\
+  (2 / 5 <> lj_pot 1 1 1 - lj_pot 1 1 (Rmin (1 + 3 / 2 * (3 / 2)) (lj_r0 1 * lj_r0 1))).
+Proof.
+  split; [resolve; unfold_leaves; discriminate|].
+  unfold Rmin. resolve. apply Rgt_not_eq. unfold_leaves. interval.
+Qed.
+
+Theorem infinite_iff_never_reached_lennard_jones : forall k sigma dE x q speed : R,
+  0 < k -> 0 < sigma -> 0 < q -> 0 < dE ->
+  (0 < x -> q <= lj_r0 sigma * lj_r0 sigma ->
+   dE <> lj_pot k sigma q - lj_pot k sigma (Rmin (q + x * x) (lj_r0 sigma * lj_r0 sigma))) ->
+  (sv_displacement (lj_displacement k sigma dE x q) speed = None <->
+   forall d, 0 <= d ->
+     Eplus (fun s => lj_pot k sigma (q + (x - s) * (x - s))) (breaks_mexhat x q (lj_r0 sigma)) d < dE).
+Proof. exact lj_infinite_iff. Qed.
+Print Assumptions infinite_iff_never_reached_lennard_jones.
+Example infinite_iff_never_reached_lennard_jones_nonvacuous :
+  sv_displacement (lj_displacement 1 1 (1 / 2) (- 3 / 2) (1 / 4)) 1 = None.
+Proof. resolve. reflexivity. Qed.
+
+Theorem displacement_inverts_displaced_even_power : forall (k r0 : R) (p : nat) (dE x q speed t : R),
+  0 < k -> 0 < r0 -> (0 < p)%nat -> Nat.Even p -> 0 < q -> 0 < dE -> 0 < speed ->
+  (0 < x -> q <= r0 * r0 -> dE <> dep_pot k r0 p q - dep_pot k r0 p (Rmin (q + x * x) (r0 * r0))) ->
+  sv_displacement (dep_displacement k r0 p dE x q) speed = Some t ->
+  0 < t /\ Eplus (fun s => dep_pot k r0 p (q + (x - s) * (x - s))) (breaks_mexhat x q r0) (t * speed) = dE.
+Proof. exact dep_displacement_inverts. Qed.
+Print Assumptions displacement_inverts_displaced_even_power.
+Example displacement_inverts_displaced_even_power_nonvacuous :
+  sv_displacement (dep_displacement 1 1 2 (1 / 2) (1 / 2) (1 / 4)) 2 <> None /\ Nat.Even 2 /\
+  (1 / 2 <> dep_pot 1 1 2 (1 / 4) - dep_pot 1 1 2 (Rmin (1 / 4 + 1 / 2 * (1 / 2)) (1 * 1))).
+Proof.
+  split; [apply dep_never_infinite|]. split; [exists 1%nat; reflexivity|].
+  unfold Rmin. resolve. apply Rgt_not_eq. unfold_leaves. interval.
+Qed.
+
+(** the displaced even power potential grows without bound: its event distance is never infinite, so
+    "infinite exactly when never reached" holds with both sides false *)
+Theorem infinite_iff_never_reached_displaced_even_power : forall (k r0 : R) (p : nat) (dE x q speed : R),
+  sv_displacement (dep_displacement k r0 p dE x q) speed <> None.
+Proof. exact dep_never_infinite. Qed.
+Print Assumptions infinite_iff_never_reached_displaced_even_power.
+Example infinite_iff_never_reached_displaced_even_power_nonvacuous :
+  sv_displacement (dep_displacement 1 1 2 5 (-2) 1) 1 <> None.
+Proof. apply dep_never_infinite. Qed.
+
+(** the generic statement behind both: any [mexhat] record whose potential decreases inside and increases outside
+    the minimum sphere and whose two inverse functions are correct ([mh_wf]); finite and infinite results at once *)
+Theorem displacement_correct_mexhat : forall (m : mexhat) (dE x q : R),
+  mh_wf m -> 0 < q -> 0 < dE ->
+  (0 < x -> q <= mh_r0sq m -> dE <> mh_pot m q - mh_pot m (Rmin (q + x * x) (mh_r0sq m))) ->
+  match mh_displacement m dE x q with
+  | Some d => 0 < d /\ Eplus (mh_path m x q) (breaks_mexhat x q (mh_r0 m)) d = dE
+  | None => forall d, 0 <= d -> Eplus (mh_path m x q) (breaks_mexhat x q (mh_r0 m)) d < dE
+  end.
+Proof. exact mh_displacement_correct. Qed.
+Print Assumptions displacement_correct_mexhat.
+
+Theorem mexhat_well_formed_lennard_jones : forall k sigma : R, 0 < k -> 0 < sigma -> mh_wf (lj_mexhat k sigma).
+Proof. exact lj_mexhat_wf. Qed.
+Print Assumptions mexhat_well_formed_lennard_jones.
+Theorem mexhat_well_formed_displaced_even_power : forall (k r0 : R) (p : nat),
+  0 < k -> 0 < r0 -> (0 < p)%nat -> Nat.Even p -> mh_wf (dep_mexhat k r0 p).
+Proof. exact dep_mexhat_wf. Qed.
+Print Assumptions mexhat_well_formed_displaced_even_power.
+(** non-vacuity of the three: the hypothesis [mh_wf] is inhabited by both shipped potentials *)
+Example displacement_correct_mexhat_nonvacuous : mh_wf (lj_mexhat 1 1) /\ mh_wf (dep_mexhat 1 1 2).
+Proof.
+  split; [apply lj_mexhat_wf; lra | apply dep_mexhat_wf; try lra; [repeat constructor | exists 1%nat; reflexivity]].
+Qed.
+
+(** the two inverse functions are correct on their side of the minimum *)
+Theorem invert_outside_minimum_lennard_jones : forall k sigma U rn : R,
   0 < k -> 0 < sigma -> - k / 4 <= U ->
   lj_inv_out k sigma U = Some rn -> U < 0 /\ lj_pot k sigma (rn * rn) = U.
 Proof. exact lj_invert_outside. Qed.
-Print Assumptions invert_outside_minimum_lennard_jones_partial.
-Example invert_outside_minimum_lennard_jones_partial_nonvacuous : lj_inv_out 1 1 (- 1 / 8) <> None.
+Print Assumptions invert_outside_minimum_lennard_jones.
+Example invert_outside_minimum_lennard_jones_nonvacuous : lj_inv_out 1 1 (- 1 / 8) <> None.
 Proof. resolve. discriminate. Qed.
 
-Theorem invert_inside_minimum_lennard_jones_partial : forall k sigma U : R,
+Theorem invert_inside_minimum_lennard_jones : forall k sigma U : R,
   0 < k -> 0 < sigma -> - k / 4 <= U ->
   let rn := lj_inv_in k sigma U in lj_pot k sigma (rn * rn) = U.
 Proof. exact lj_invert_inside. Qed.
-Print Assumptions invert_inside_minimum_lennard_jones_partial.
-Example invert_inside_minimum_lennard_jones_partial_nonvacuous : - (1 : R) / 4 <= 3. Proof. lra. Qed.
+Print Assumptions invert_inside_minimum_lennard_jones.
+Example invert_inside_minimum_lennard_jones_nonvacuous : - (1 : R) / 4 <= 3. Proof. lra. Qed.
 
-Theorem invert_outside_minimum_displaced_even_power_partial : forall (k r0 : R) (p : nat) (U rn : R),
+Theorem invert_outside_minimum_displaced_even_power : forall (k r0 : R) (p : nat) (U rn : R),
   0 < k -> 0 <= r0 -> (0 < p)%nat -> 0 < U ->
   dep_inv_out k r0 p U = Some rn -> r0 < rn /\ dep_pot k r0 p (rn * rn) = U.
 Proof. exact dep_invert_outside. Qed.
-Print Assumptions invert_outside_minimum_displaced_even_power_partial.
-Example invert_outside_minimum_displaced_even_power_partial_nonvacuous : dep_inv_out 1 1 2 (1 / 4) <> None.
+Print Assumptions invert_outside_minimum_displaced_even_power.
+Example invert_outside_minimum_displaced_even_power_nonvacuous : dep_inv_out 1 1 2 (1 / 4) <> None.
 Proof. discriminate. Qed.
 
-Theorem invert_inside_minimum_displaced_even_power_partial : forall (k r0 : R) (p : nat) (U : R),
+Theorem invert_inside_minimum_displaced_even_power : forall (k r0 : R) (p : nat) (U : R),
   0 < k -> (0 < p)%nat -> Nat.Even p -> 0 < U -> U <= k * r0 ^ p -> 0 < r0 ->
   let rn := dep_inv_in k r0 p U in
   0 <= rn < r0 /\ dep_pot k r0 p (rn * rn) = U.
 Proof. exact dep_invert_inside. Qed.
-Print Assumptions invert_inside_minimum_displaced_even_power_partial.
-Example invert_inside_minimum_displaced_even_power_partial_nonvacuous :
+Print Assumptions invert_inside_minimum_displaced_even_power.
+Example invert_inside_minimum_displaced_even_power_nonvacuous :
   Nat.Even 2 /\ (1 / 4 : R) <= 1 * 1 ^ 2.
 Proof. split; [exists 1%nat; reflexivity | lra]. Qed.
 
-(** one of the four geometric cases, fully: in front of the target and outside the minimum sphere, for ANY Mexican
-    hat whose potential increases outside the minimum and whose outside-inverse is correct; instantiated for the
-    displaced even power potential (the other three cases compose this one with the inside pieces: partial) *)
-Theorem displacement_inverts_mexhat_front_outside_partial :
-  forall (m : mexhat) (dE x q d : R) (bs : list R),
-  (forall a b, mh_r0sq m <= a -> a < b -> mh_pot m a < mh_pot m b) ->
-  (forall U rn, mh_pot m (mh_r0sq m) < U -> mh_inv_out m U = Some rn ->
-                0 <= rn /\ mh_r0sq m <= rn * rn /\ mh_pot m (rn * rn) = U) ->
-  x <= 0 -> mh_r0sq m <= q + x * x -> 0 < dE -> 0 <= q ->
-  List.Forall (fun b => b <= 0) bs ->
-  mh_front_outside m (mh_pot m (q + x * x)) dE x q = Some d ->
-  0 < d /\
-  mh_pot m (q + (x - d) * (x - d)) = mh_pot m (q + x * x) + dE /\
-  Eplus (fun s => mh_pot m (q + (x - s) * (x - s))) bs d = dE.
-Proof. exact mh_front_outside_inverts. Qed.
-Print Assumptions displacement_inverts_mexhat_front_outside_partial.
+(** ** inverse_power_coulomb_bounding_potential.c with periodic images.
+    Specification side: [ipc_path kc x q L s] = kc / |nearest image of the separation after the active unit advanced
+    by s|, break points x + j L/2 ([ipc_breaks]); its positive variation gains [ipc_per_lap] per box length. *)
+Theorem nearest_image_potential_periodic : forall kc x q L s : R,
+  0 < L -> ipc_path kc x q L (s + L) = ipc_path kc x q L s.
+Proof. exact ipc_path_periodic. Qed.
+Print Assumptions nearest_image_potential_periodic.
+Example nearest_image_potential_periodic_nonvacuous : nearest_image 2 (1 / 2) = 1 / 2.
+Proof. apply nearest_image_id; lra. Qed.
 
-Theorem displacement_inverts_displaced_even_power_front_outside_partial :
-  forall (k r0 : R) (p : nat) (dE x q d : R),
-  0 < k -> 0 < r0 -> (0 < p)%nat ->
-  x <= 0 -> r0 * r0 <= q + x * x -> 0 < dE -> 0 <= q ->
-  mh_front_outside (dep_mexhat k r0 p) (dep_pot k r0 p (q + x * x)) dE x q = Some d ->
-  0 < d /\
-  dep_pot k r0 p (q + (x - d) * (x - d)) = dep_pot k r0 p (q + x * x) + dE /\
-  Eplus (fun s => dep_pot k r0 p (q + (x - s) * (x - s))) (breaks_mexhat x q r0) d = dE.
-Proof. exact dep_front_outside_inverts. Qed.
-Print Assumptions displacement_inverts_displaced_even_power_front_outside_partial.
-(** non-vacuity of both (the second instantiates the hypotheses of the first) *)
-Example displacement_inverts_displaced_even_power_front_outside_partial_nonvacuous :
-  mh_front_outside (dep_mexhat 1 1 2) (dep_pot 1 1 2 (1 / 4 + (-2) * (-2))) (1 / 2) (-2) (1 / 4) <> None
-  /\ (1 : R) * 1 <= 1 / 4 + (-2) * (-2).
-Proof. split; [discriminate | lra]. Qed.
-Example displacement_inverts_mexhat_front_outside_partial_nonvacuous :
-  (forall a b, mh_r0sq (dep_mexhat 1 1 2) <= a -> a < b -> mh_pot (dep_mexhat 1 1 2) a < mh_pot (dep_mexhat 1 1 2) b).
-Proof. intros a b Ha Hab. simpl in *. apply dep_pot_increasing_outside; try lra. repeat constructor. Qed.
+Theorem gain_per_lap_coulomb_bound : forall (kc x q L d : R) (n : nat),
+  0 < L -> 0 < q -> kc <> 0 -> - L / 2 <= x <= L / 2 -> 0 <= d ->
+  Eplus (ipc_path kc x q L) (ipc_breaks x L (S (S (S (S n))))) (d + L) =
+  ipc_per_lap kc q L + Eplus (ipc_path kc x q L) (ipc_breaks x L (S (S n))) d.
+Proof. exact ipc_one_more_lap. Qed.
+Print Assumptions gain_per_lap_coulomb_bound.
+Example gain_per_lap_coulomb_bound_nonvacuous : 0 < ipc_per_lap (- 3 / 2) 1 2.
+Proof. apply ipc_per_lap_pos; lra. Qed.
+
+Theorem laps_correct : forall kc dE x q L d : R,
+  0 < L -> 0 < q -> kc <> 0 -> 0 < dE -> - L / 2 <= x <= L / 2 ->
+  ipc_displacement kc dE x q L = Some d ->
+  exists (n : nat) (r : R),
+    Int_part (dE / ipc_per_lap kc q L) = Z.of_nat n /\
+    INR n * ipc_per_lap kc q L <= dE < (INR n + 1) * ipc_per_lap kc q L /\
+    d = INR n * L + r /\ 0 <= r /\
+    Eplus (ipc_path kc x q L) (ipc_breaks x L 4) r = dE - INR n * ipc_per_lap kc q L /\
+    Eplus (ipc_path kc x q L) (ipc_breaks x L (2 * n + 4)) d = dE.
+Proof. exact ipc_laps_correct. Qed.
+Print Assumptions laps_correct.
+(** the routine always returns a value (the periodic 1/r potential accumulates any budget) *)
+Example laps_correct_nonvacuous : exists d, ipc_displacement 1 5 (1 / 4) (1 / 8) 1 = Some d.
+Proof. eexists. reflexivity. Qed.
+
+(** ** HardDipolePotential.displacement: min2 / max2 = squared minimal / maximal separation.
+    If the inner sphere is hit (the hard-sphere routine with the minimal separation returns a time) that time is
+    returned -- it is the first contact by [hard_sphere_first_contact]; otherwise the returned time is the moment at
+    which the maximal separation is reached: the distance stays within it before and exceeds it afterwards. *)
+Theorem hard_dipole_inner_contact : forall (min2 max2 : R) (v s : vec3) (t : R),
+  hs_displacement min2 v s = Some t -> hd_displacement min2 max2 v s = t.
+Proof. exact hd_inner. Qed.
+Print Assumptions hard_dipole_inner_contact.
+Example hard_dipole_inner_contact_nonvacuous : hs_displacement 1 (1, 0, 0) (3, 0, 0) <> None.
+Proof. resolve. unfold_leaves. discriminate. Qed.
+
+Theorem hard_dipole_reaches_maximal_separation : forall (min2 max2 : R) (v s : vec3),
+  0 < dot3 v v -> dot3 s s <= max2 ->
+  hs_displacement min2 v s = None ->
+  let t := hd_displacement min2 max2 v s in
+  0 <= t /\
+  dot3 (sub3 s (scal3 t v)) (sub3 s (scal3 t v)) = max2 /\
+  (forall t', 0 <= t' <= t -> dot3 (sub3 s (scal3 t' v)) (sub3 s (scal3 t' v)) <= max2) /\
+  (forall t', t < t' -> max2 < dot3 (sub3 s (scal3 t' v)) (sub3 s (scal3 t' v))).
+Proof. exact hd_reaches_max. Qed.
+Print Assumptions hard_dipole_reaches_maximal_separation.
+Example hard_dipole_reaches_maximal_separation_nonvacuous :
+  hs_displacement 1 (1, 0, 0) (3, 2, 0) = None /\ dot3 (3, 2, 0) (3, 2, 0) <= 16.
+Proof. split; [resolve; reflexivity | simpl; lra]. Qed.
